@@ -105,8 +105,10 @@ func checkC05(r *Run) {
 		maxRows = []int{3, 6, 10}[t.Draw(3)]
 	}
 	hdr := t.Block(28)
-	shape := hdr.Weighted(3, 3, 5, 3, 2, 3) // single, inner join, outer join, group by + counting trigger, distinct, changelog table
-	outerKind := hdr.Draw(3)                // left, right, full
+	// single, inner join, outer join, group by + counting trigger, distinct, changelog table,
+	// LOOKUP JOIN whose joined side is a LIMIT subquery (run again for every outer record)
+	shape := hdr.Weighted(3, 3, 5, 3, 2, 3, 2)
+	outerKind := hdr.Draw(3) // left, right, full
 	mode := OutputModes[hdr.Draw(len(OutputModes))]
 	nest := hdr.Weighted(5, 3, 2, 2, 2, 2) // A top, B subquery, C subquery + outer LIMIT, D subquery LIMIT + outer ORDER BY, E WITH, F ORDER BY only
 	hasOrder := hdr.Chance(1, 2)
@@ -126,7 +128,10 @@ func checkC05(r *Run) {
 	L := genTable(t.Block(6*maxRows), "l", maxRows, true)
 	var R [][]octosql.Value
 	var changelog []Msg
-	twoSources := shape == 1 || shape == 2
+	twoSources := shape == 1 || shape == 2 || shape == 6
+	if shape == 6 {
+		nest = 6
+	}
 	if twoSources {
 		R = genTable(t.Block(6*maxRows), "r", maxRows, true)
 	}
@@ -209,6 +214,33 @@ func checkC05(r *Run) {
 			g := groups[ks]
 			want.Add([]octosql.Value{g.key, intv(g.cnt), intv(g.sum)}, 1)
 		}
+	case 6:
+		// the subquery yields the first n rows of r in delivery order (or by id under ORDER BY: ids differ
+		// except between fully identical rows), once per outer record, and every run must yield them again
+		sub := "SELECT * FROM sim.r r"
+		rows := append([][]octosql.Value(nil), R...)
+		if hasOrder {
+			desc := ordDraw[0][1] == 1
+			sub += " ORDER BY r.id"
+			if desc {
+				sub += " DESC"
+			}
+			sort.SliceStable(rows, func(i, j int) bool {
+				if desc {
+					return rows[i][3].Str > rows[j][3].Str
+				}
+				return rows[i][3].Str < rows[j][3].Str
+			})
+		}
+		sub += fmt.Sprintf(" LIMIT %d", n)
+		if n < len(rows) {
+			rows = rows[:n]
+		}
+		base = "SELECT l.k AS a, l.v AS b, l.id AS c, x.v AS d, x.id AS e FROM sim.l l LOOKUP JOIN (" + sub + ") x ON l.k = x.k"
+		cols = []string{"a", "b", "c", "d", "e"}
+		for _, row := range RefJoin(JoinInner, rowsToMS(L), rowsToMS(rows), []int{0}, []int{0}, 4, 4, false, nil).Rows() {
+			want.Add([]octosql.Value{row[0], row[2], row[3], row[6], row[7]}, 1)
+		}
 	case 4:
 		base = "SELECT DISTINCT l.k AS a, l.k2 AS b FROM sim.l l"
 		cols = []string{"a", "b"}
@@ -220,7 +252,7 @@ func checkC05(r *Run) {
 		}
 	}
 	var ord []c05Order
-	if hasOrder || nest == 3 || nest == 5 {
+	if (hasOrder || nest == 3 || nest == 5) && nest != 6 {
 		for i := 0; i < nOrd; i++ {
 			c := ordDraw[i][0] % len(cols)
 			dup := false
@@ -274,10 +306,12 @@ func checkC05(r *Run) {
 	case 5: // F
 		sql = base + innerOrd
 		topOrdered = true
+	case 6: // the LIMIT is inside the joined side: the whole result is expected
+		sql = base
 	}
 
-	attrs := map[string]string{"mode": mode, "shape": []string{"single", "inner_join", "outer_join", "group_by_counting", "distinct", "changelog"}[shape],
-		"nest": []string{"top", "subquery", "subquery_outer_limit", "subquery_outer_order", "with", "order_only"}[nest]}
+	attrs := map[string]string{"mode": mode, "shape": []string{"single", "inner_join", "outer_join", "group_by_counting", "distinct", "changelog", "lookup_join_limit_subquery"}[shape],
+		"nest": []string{"top", "subquery", "subquery_outer_limit", "subquery_outer_order", "with", "order_only", "joined_side"}[nest]}
 	r.Log("sql: %s", sql)
 	r.Log("mode=%s optimize=%v sticky=%d jumps=%v", mode, optimize, sticky, jumps)
 	if shape == 5 {
